@@ -16,5 +16,9 @@ case "$1" in
     mkdir -p bin
     ( cd sim && go build -race -tags verif -o ../bin/fgsim-race ./cmd/fgsim ) || { echo "RACE BUILD FAILED" >&2; exit 2; }
     exit 0;;
+  C17)
+    build
+    ( cd sim && go build -race -tags verif -o ../bin/fgsim-race ./cmd/fgsim ) || { echo "RACE BUILD FAILED" >&2; exit 2; }
+    exec ./bin/fgsim check C17 "${2:-quick}";;
   *) build; exec ./bin/fgsim check "$1" "${2:-quick}";;
 esac
